@@ -274,6 +274,18 @@ def _retarget(t, old, new):
         t["targets"] = [[v, (new if b == old else b)] for v, b in t["targets"]]
 
 
+_KNOWN_ADTS = None
+
+
+def _known_adts():
+    global _KNOWN_ADTS
+    if _KNOWN_ADTS is None:
+        with open(os.path.join(HERE, "known_functions.json")) as f:
+            _KNOWN_ADTS = set(json.load(f).get("adts", []))
+        _KNOWN_ADTS |= {"std::result::Result", "std::option::Option", "std::ops::ControlFlow"}
+    return _KNOWN_ADTS
+
+
 def _payload_path(proj):
     """[(downcast V, field i)]* -> ((V, i), ..); None for any other projection"""
     out = []
@@ -392,7 +404,10 @@ def thread_known_variants(body, only_from=None, budget=60, bools=False):
                             continue
                         ok = False
                         break
-                    if rv["k"] == "aggregate" and rv["kind"]["k"] == "adt" and descended and isinstance(rv["kind"].get("idx"), int):
+                    if rv["k"] == "aggregate" and rv["kind"]["k"] == "adt" and isinstance(rv["kind"].get("idx"), int) \
+                            and (descended or rv["kind"].get("adt") not in _known_adts()):
+                        # (also a value of an enum that does not exist on the pinned tree: a "plan" or
+                        #  "outcome" a refactoring computes in one place and matches on in another)
                         known = int(rv["kind"]["idx"])
                     elif rv["k"] == "aggregate" and rv["kind"]["k"] == "adt" and rv["kind"]["variant"] in _VARIANT_IDX:
                         known = rv["kind"]["variant"]
